@@ -1,6 +1,7 @@
 // C08 - a caller workspace is never overrun; shortage is reported (fault enumeration).
 // Per sampled case: EVERY workspace length (step 4 bytes, both alignments), EVERY failing position among the
 // factor-growth requests (transient and persisting), and the size query through the entry point.
+#include <algorithm>
 #include <functional>
 #include "gen_common.h"
 
@@ -50,7 +51,7 @@ static ExecCfg c08_cfg(uint64_t budget) {
 }
 
 // one enumerated run: outcome must be "reported shortage" or "same class and bit-identical to the reference"
-static void c08_one(C08Ctx &x, const EnvSpec &e0, const char *what) {
+static long c08_one(C08Ctx &x, const EnvSpec &e0, const char *what) {
     EnvSpec e = e0;
     if (x.ref_singular) { e.garbage = G_ZERO; e.wsgarbage = G_ZERO; } // known finding KF-zero-pivot: singular inputs run with clean fresh memory only
     TaskPlan q = apply_env(x.plan, e);
@@ -97,6 +98,7 @@ static void c08_one(C08Ctx &x, const EnvSpec &e0, const char *what) {
     }
     if (fired) x.out.stats["faults_fired_distinct"] += 1;
     if (bad && x.failing.size() < 3) { EnvSpec f = e; f.label = what; x.failing.push_back(f); }
+    return (long)r.cls * 100000 + (r.expansions < 0 ? 99999 : r.expansions); // outcome signature: where it changes, the storage schedule changes
 }
 
 RunOutcome exec_C08(const Case &c) {
@@ -142,8 +144,23 @@ RunOutcome exec_C08(const Case &c) {
                 for (long lw = std::max(1L, lmin - 9); lw <= lmin + 9; lw++) if (lw % 4) { e.lwork = lw; c08_one(x, e, "workspace-length"); swept++; }
                 out.stats["cases_swept_exhaustively"] += 0.5;
             } else {
+                // too many lengths to enumerate: a coarse sweep locates every length at which the outcome signature (exit class,
+                // number of expansions) changes, each such boundary is then localised by bisection and swept densely (step 4)
                 Rng sr(mix3(c.sched_seed, 88, (uint64_t)align));
-                int nsamp = c.prior_plans ? 384 : 2048;
+                const int NC = 96; std::vector<long> pts, sig;
+                for (int k = 0; k <= NC; k++) { long lw = (4 + (top - 4) * k / NC) / 4 * 4; if (lw < 4) lw = 4; if (!pts.empty() && lw == pts.back()) continue; e.lwork = lw; pts.push_back(lw); sig.push_back(c08_one(x, e, "workspace-length")); swept++; }
+                std::vector<std::pair<long, long>> bnd; // (distance to lmin, boundary)
+                for (size_t k = 1; k < pts.size(); k++) if (sig[k] != sig[k - 1]) {
+                    long lo = pts[k - 1], hi = pts[k], slo = sig[k - 1];
+                    while (hi - lo > 64) { long mid = ((lo + hi) / 2) / 4 * 4; if (mid <= lo) break; e.lwork = mid; long sm = c08_one(x, e, "workspace-length"); swept++; if (sm == slo) lo = mid; else hi = mid; }
+                    bnd.push_back({std::labs(hi - lmin), hi});
+                }
+                std::sort(bnd.begin(), bnd.end());
+                int windows = 0;
+                for (auto &b : bnd) { if (++windows > (c.prior_plans ? 5 : 10)) break;
+                    for (long lw = std::max(4L, b.second - 160); lw <= b.second + 352; lw += 4) { e.lwork = lw; c08_one(x, e, "workspace-length"); swept++; } }
+                out.stats["probe_signature_boundaries_swept"] += windows > 5 ? 5 : windows;
+                int nsamp = c.prior_plans ? 96 : 512;
                 for (int k = 0; k < nsamp; k++) {
                     long lw = sr.chance(0.5) ? (long)(lmin - 2048 + (long)sr.below(4096)) : (long)sr.below((uint64_t)top);
                     if (lw < 1) lw = 4; if (sr.chance(0.9)) lw = lw / 4 * 4; if (lw < 1) lw = 4;
